@@ -405,12 +405,20 @@ func c19MenuString(m []optSet) string {
 // alphaFamily: every string of exactly length L over the alphabet, in alphabet order; one work item per
 // prefix of length L-1.
 func c19AlphaFamily(c *Ctx, L int, menu []optSet, menuName string) c19Family {
-	A := c19Alphabet
+	return c19AlphaFamilyOver(c, "ALPHA", c19Alphabet, L, menu, menuName)
+}
+
+// c19MixAlphabet: a small alphabet for longer strings: a metacharacter, a blank, a digit that an escape could
+// swallow, a control that Escape writes in hex, a plain letter, and 2-, 3- and 4-byte runes that Escape keeps raw
+// (in longer strings byte offsets and rune offsets drift apart between two escapes)
+var c19MixAlphabet = []rune{'.', 'x', '1', ' ', 0x01, 'é', 0x4E2D, 0x1F600}
+
+func c19AlphaFamilyOver(c *Ctx, tag string, A []rune, L int, menu []optSet, menuName string) c19Family {
 	items := 1
 	for i := 0; i < L-1; i++ {
 		items *= len(A)
 	}
-	name := fmt.Sprintf("ALPHA len=%d (%d-rune alphabet) x %d option sets [%s]", L, len(A), len(menu), menuName)
+	name := fmt.Sprintf("%s len=%d (%d-rune alphabet) x %d option sets [%s]", tag, L, len(A), len(menu), menuName)
 	decode := func(i int) []rune {
 		if L == 0 {
 			return nil
@@ -426,12 +434,12 @@ func c19AlphaFamily(c *Ctx, L int, menu []optSet, menuName string) c19Family {
 		run: func(i int, acc *c19Acc) {
 			p := decode(i)
 			if L == 0 {
-				c19One(c, acc, fmt.Sprintf("ALPHA len=%d", L), nil, menu, false)
+				c19One(c, acc, fmt.Sprintf("%s len=%d", tag, L), nil, menu, false)
 				return
 			}
 			for _, a := range A {
 				s := append(append(make([]rune, 0, L), p...), a)
-				c19One(c, acc, fmt.Sprintf("ALPHA len=%d", L), s, menu, false)
+				c19One(c, acc, fmt.Sprintf("%s len=%d", tag, L), s, menu, false)
 			}
 		},
 		witnes: func(i int) string { return "prefix " + c19Quote(string(decode(i))) },
@@ -503,6 +511,11 @@ func runC19(c *Ctx) {
 		fams = append(fams, c19AlphaFamily(c, 3, full, "full menu"), c19AlphaFamily(c, 4, []optSet{"", "x"}, "-,x"))
 	} else {
 		fams = append(fams, c19AlphaFamily(c, 3, c19SweepMenu, c19MenuString(c19SweepMenu)))
+	}
+	mixMenu := []optSet{"", "x", "2", "E"}
+	fams = append(fams, c19AlphaFamilyOver(c, "MIX", c19MixAlphabet, 4, mixMenu, c19MenuString(mixMenu)), c19AlphaFamilyOver(c, "MIX", c19MixAlphabet, 5, mixMenu, c19MenuString(mixMenu)))
+	if thorough {
+		fams = append(fams, c19AlphaFamilyOver(c, "MIX", c19MixAlphabet, 6, []optSet{"", "x"}, "-,x"))
 	}
 	for _, f := range fams {
 		c19RunFamily(c, f)
